@@ -53,6 +53,7 @@ def gen_params(rng: random.Random, idx, tier="quick", force=None):
         # a partition leader is down (the metadata names no leader for its partitions) for a while: shorter or LONGER than
         # the request timeout, which is also how long a batch may wait for a leader before it is given up
         "leader_outage": None,
+        "app_cancels": False,
     }
     if rng.random() < 0.25:
         p["leader_outage"] = {"at": round(rng.uniform(0.05, 3.0), 3),
@@ -198,6 +199,11 @@ def run_history(P):
                         H["futures"][buid] = {"outcome": "pending", "callbacks": 0, "kind": "batch", "tp": p,
                                               "uids": [u for u, _ in uids], "t_acc": loop.time() - t0}
                         fut.add_done_callback(lambda f, u=buid: on_done(u, f))
+                        if P.get("app_cancels") and trng.random() < 0.4:
+                            # the application gives up waiting for this batch (asyncio.wait_for timeout, cancelled task): the
+                            # future it was handed is cancelled; the batch itself and everything else must go on as before
+                            H["futures"][buid]["app_cancelled"] = True
+                            loop.call_later(trng.choice([0.0, 0.002, 0.05, 0.3]), fut.cancel)
                         k += len(uids)
                         sent_so_far["n"] += len(uids)
                     else:
